@@ -110,8 +110,9 @@ pub fn run(tier: &str) -> i32 {
     rep.set_rule("every two-counterpart input (T, U) of the feature-interaction corpus (member mappings, ghost, ghosts, child, child_parents, parent, where_clause, type_hint, literal/pattern in default form or dedicated to T or to U; all kind presets) that is accepted: for each counterpart X the multiset of generated impls whose trait argument is X must equal (token level) the complete expansion of the projected input in which every trait instruction for the other counterpart and every instruction dedicated to it is deleted. states = distinct joint inputs; non-trivial = accepted joint inputs with parsable output");
     rep.assume("impls are attributed to a counterpart by the trait's type argument; in-process expansion (fallback lexer, syn 1)");
     let caps = Caps::from_env(if tier == "quick" { 150.0 } else { 1500.0 });
-    corpus::for_each_in(corpus::spaces_2cp(tier), &caps, &rep, |space, choices, c| check_case(space, choices, &c, &rep));
-    corpus::for_each(tier, &caps, &rep, |space, choices, c| check_case(space, choices, &c, &rep));
+    let ctier = if tier == "quick" { "quick" } else { "mid" };
+    corpus::for_each_in(corpus::spaces_2cp(ctier), &caps, &rep, |space, choices, c| check_case(space, choices, &c, &rep));
+    corpus::for_each(ctier, &caps, &rep, |space, choices, c| check_case(space, choices, &c, &rep));
     rep.finish()
 }
 
